@@ -203,7 +203,7 @@ class ModuleGen(object):
             self.spec.features.add('module-docstring')
         n = rng.randint(2, 7)
         for k in range(n):
-            kind = rng.choice(['func', 'afunc', 'deco', 'class', 'class', 'if', 'try', 'main', 'with', 'adeco', 'ctxmgr', 'notmain', 'handler', 'matcharm', 'tryelse',
+            kind = rng.choice(['func', 'afunc', 'deco', 'class', 'class', 'if', 'try', 'main', 'with', 'adeco', 'ctxmgr', 'notmain', 'handler', 'matcharm', 'tryelse', 'bytesdoc',
                               'forbody', 'subclass'])
             self.spec.features.add('top:' + kind)
             if kind == 'func':
@@ -253,6 +253,14 @@ class ModuleGen(object):
                 self.func('    ', 'own', 'S%d.own' % k, True, nested=False)
                 out.append('    alias = B%d.inherited' % k if False else '    attr2 = 2')
                 out.append('')
+            elif kind == 'bytesdoc':
+                # the first statement is a bytes literal (or a concatenation): not a docstring, nothing to collect
+                m = self.nu() + '_0'
+                lit = rng.choice(['b"""\n    >>> print("%s")\n    %s\n    """' % (m, m),
+                                  '"Summary " + "\\n>>> print(\'%s\')"' % m])
+                out += ['def bd%d():' % k, '    ' + lit, '    return 1', '']
+                self.spec.forbidden[m] = 'a bytes literal / an expression as first statement is not a docstring'
+                self.spec.features.add('top:bytesdoc')
             elif kind == 'notmain':
                 # not the main guard: the block runs on import, its definitions are collected
                 out.append('if %s:' % rng.choice(["__name__ != '__main__'", "'__main__' != __name__", "__name__ is not None",
